@@ -15,14 +15,18 @@ thread can take a step, nothing is left in the pending map or the queue:
   loop test and the end of `stop()`), `refuted_glue_in_hand` (no second submission needed: the Glue
   monitor leaves while the submission thread holds the only job).  Closed traces, checked by `decide`.
 * What does hold of the code as found, for EVERY variant (any line structure), every job stream and
-  every interleaving: `conservation`, `reported_at_most_once` (partial: a lost job is never dropped or
-  reported twice — it stays recorded in the pending map / queue, which is why a later submission
-  recovers it).
+  every interleaving: `conservation`, `reported_at_most_once` (a lost job is never dropped or reported
+  twice — it stays recorded in the pending map / queue, which is why a later submission recovers it).
+* `no_lost_job_partial`: for Docker, AWS Batch, K8S and GCP Batch (every variant whose exit path is
+  well formed, `WF`) the window is the ONLY way to lose a job: in every interleaving in which no job is
+  recorded while a monitor is between its failed loop test and the point where `_start` would start a
+  new thread (`hit = false`), nothing is lost, and no monitor crashes.  Missing for the full statement:
+  exactly the interleavings with `hit = true` (refuted above), and AWS Glue (second loss mode).
 * `locked_no_lost_job`: the target holds, for all interleavings, of the protocol in which the
   monitor's exit decision + flag clearing and the submitter's flag test + set + thread start are
   critical sections of one lock.
 -/
-import RedunModel.Lemmas.Monitor
+import RedunModel.Lemmas.MonitorPartialC
 import RedunModel.Lemmas.MonitorLockedC
 namespace RedunModel.C10
 open RedunModel.Monitor
@@ -56,6 +60,54 @@ theorem reported_at_most_once (V : Variant) (jobs : List Job) (s : State) (h : R
   constructor
   · intro hp; have : 0 < s.pending.count j := List.count_pos_iff.2 hp; have := key j; omega
   · intro hq; have : 0 < s.queue.count j := List.count_pos_iff.2 hq; have := key j; omega
+
+/-- **Partial: the exit window is the only way to lose a job** (Docker, AWS Batch, K8S, GCP Batch and
+every other variant with a well-formed exit path).  For distinct jobs and every interleaving in which
+no job was recorded while a monitor thread was on its way out (`hit = false`): when no thread can
+take a step any more, the pending map and the queue are empty. -/
+theorem no_lost_job_partial (V : Variant) (hW : WF V) (jobs : List Job) (hd : jobs.Nodup) (s : State)
+    (h : Reachable V jobs s) (hh : s.hit = false) : lost s = [] := by
+  unfold lost
+  split
+  · rename_i hq
+    have hI := reachable_invP hW hd h hh
+    simp only [quiescent, Bool.and_eq_true, beq_iff_eq, List.all_eq_true] at hq
+    obtain ⟨⟨⟨hdone, hmons⟩, _⟩, _⟩ := hq
+    have hboth : s.pending = [] ∧ s.queue = [] := by
+      apply Classical.byContradiction
+      intro hne
+      have hne' : s.pending ≠ [] ∨ s.queue ≠ [] := by
+        by_cases hp : s.pending = []
+        · right; intro hq'; exact hne ⟨hp, hq'⟩
+        · left; exact hp
+      rcases hI.cover hne' with ⟨_, hpre⟩ | hc
+      · -- the thread `self._thread` refers to would have to be running its loop
+        unfold lph at hpre
+        cases hm : s.mon with
+        | none => simp [hm, preExit] at hpre
+        | some m =>
+          simp only [hm] at hpre
+          have hal := hmons m (by simp [State.mons, hm])
+          have hu := hI.unst
+          simp only [lph, hm] at hu
+          simp only [monAlive, Bool.not_and, Bool.or_eq_true, Bool.not_eq_true', bne_eq_false_iff_eq] at hal
+          rcases hal with hal | hal
+          · have := hu hal; rw [hdone] at this; cases this
+          · rw [hal] at hpre; simp [preExit] at hpre
+      · rw [hdone] at hc; simp [sCover] at hc
+    rw [hboth.1, hboth.2]; rfl
+  · rfl
+
+/-- and in those interleavings no monitor thread fails (`_process_job_status` always finds its job) -/
+theorem no_monitor_crash_partial (V : Variant) (hW : WF V) (jobs : List Job) (hd : jobs.Nodup) (s : State)
+    (h : Reachable V jobs s) (hh : s.hit = false) : ∀ m, s.mon = some m → ∀ r, m.ph ≠ .exc r := by
+  intro m hm r
+  have := (reachable_invP hW hd h hh).noExc r
+  simpa [lph, hm] using this
+
+/-- the four executors the partial theorem applies to -/
+theorem wf_variants : WF docker ∧ WF awsBatch ∧ WF k8s ∧ WF gcpBatch :=
+  ⟨wf_docker, wf_awsBatch, wf_k8s, wf_gcpBatch⟩
 
 /-! ## the code as found: the target is refuted -/
 
@@ -107,8 +159,9 @@ theorem refuted_glue_in_hand :
     ∃ s, Reachable glue [0] s ∧ quiescent s = true ∧ lost s = [0] ∧ s.reported = [] ∧ s.hit = false :=
   ⟨run glue (init [0]) schedGlueInHand, reachable_run _ _ _ _ Reachable.init, by decide⟩
 
-/-- non-vacuity of the model: without the unlucky interleaving both jobs are reported and nothing is lost -/
-example : ∃ s, Reachable docker [0, 1] s ∧ quiescent s = true ∧ lost s = [] ∧ s.reported = [0, 1] :=
+/-- non-vacuity of the model and of `no_lost_job_partial`: without the unlucky interleaving (`hit = false`)
+both jobs are reported and nothing is lost -/
+example : ∃ s, Reachable docker [0, 1] s ∧ quiescent s = true ∧ s.hit = false ∧ lost s = [] ∧ s.reported = [0, 1] :=
   ⟨run docker (init [0, 1]) (rep 11 .S ++ rep 30 (.M 0)), reachable_run _ _ _ _ Reachable.init, by decide⟩
 
 /-! ## the repair's specification -/
